@@ -189,8 +189,16 @@ def run_case(case):
                             acc.ok(('b-rank', n, ik, d, ns, tn), True, 'export-ok(rank-deficient table)')
                             continue
                         cond = sv[0] / sv[-1]
+                        b_before, tab_before = b.copy(), tab.copy()
                         try:
                             back = pe.import_bootstrap(b, 'A|r1', tab)
+                            again = pe.import_bootstrap(b, 'A|r1', tab)
+                            if not np.array_equal(b, b_before) or not np.array_equal(tab, tab_before):
+                                acc.fail('bootstrap:import-mutates-argument', sub, 'import_bootstrap changed the %s it was given (n=%d ns=%d table=%s)' % ('samples' if not np.array_equal(b, b_before) else 'table', n, ns, tn))
+                                continue
+                            if again.value != back.value or not np.array_equal(again.deltas['A|r1'], back.deltas['A|r1']):
+                                acc.fail('bootstrap:import-second-call-differs', sub, 'a second import of the same samples gives another observable (n=%d ns=%d table=%s)' % (n, ns, tn))
+                                continue
                         except Exception as e:
                             acc.fail('bootstrap:import-refused', sub, 'n=%d ns=%d table=%s (full column rank, condition %g): import_bootstrap raised %s: %s' % (n, ns, tn, cond, type(e).__name__, e))
                             continue
